@@ -17,15 +17,15 @@ import (
 )
 
 type Witness struct {
-	Property string           `json:"property,omitempty"`
-	Harness  string           `json:"harness"` // fully qualified
-	Params   map[string]int   `json:"params"`
-	Vars     map[string]int64 `json:"vars"`
-	Choices  []int            `json:"choices"`
-	Outcome  string           `json:"outcome,omitempty"`
-	Msg      string           `json:"msg,omitempty"`
+	Property string            `json:"property,omitempty"`
+	Harness  string            `json:"harness"` // fully qualified
+	Params   map[string]int    `json:"params"`
+	Vars     map[string]int64  `json:"vars"`
+	Choices  []int             `json:"choices"`
+	Outcome  string            `json:"outcome,omitempty"`
+	Msg      string            `json:"msg,omitempty"`
 	Obs      map[string]string `json:"obs,omitempty"`
-	Output   string           `json:"engine_output,omitempty"`
+	Output   string            `json:"engine_output,omitempty"`
 }
 
 type NativeResult struct {
